@@ -513,6 +513,10 @@ class Part(object):
             ),
         ]
 
+        # zero lies at the first time point (the quarter duration table, and
+        # hence the keypoints, always start at 0)
+        y -= np.interp(self.first_point.t, x, y)
+
         m1 = next(self.first_point.iter_starting(Measure), None)
 
         if m1 and m1.start is not None and m1.end is not None:
